@@ -74,6 +74,51 @@ theorem insert_perm (k : κ) (v : α) : ∀ (m : List (κ × α)), k ∉ keys m 
     · have := ih hk.2
       exact (List.Perm.cons _ this).trans (List.Perm.swap _ _ _)
 
+/-- `insR` is `ins` together with what `ins` overwrites -/
+theorem insR_fst (k : κ) (v : α) : ∀ (m : List (κ × α)), (insR k v m).1 = ins k v m := by
+  intro m
+  induction m with
+  | nil => rfl
+  | cons a t ih =>
+    obtain ⟨k', v'⟩ := a
+    simp only [insR, ins]
+    split <;> simp_all
+
+/-- nothing is lost by an insert: the new map's values plus the value it reports as replaced are the old
+    values plus the new one (no sortedness needed) -/
+theorem insR_perm (k : κ) (v : α) : ∀ (m : List (κ × α)),
+    ((insR k v m).1.map (·.2) ++ (insR k v m).2.toList).Perm (v :: m.map (·.2)) := by
+  intro m
+  induction m with
+  | nil => simp [insR]
+  | cons a t ih =>
+    obtain ⟨k', v'⟩ := a
+    simp only [insR]
+    split
+    · simp
+    · simp only [List.map_cons, Option.toList_some]
+      refine (List.perm_append_comm).trans ?_
+      simp only [List.singleton_append]
+      exact List.Perm.swap _ _ _
+    · simp only [List.map_cons, List.cons_append]
+      exact (List.Perm.cons v' ih).trans (List.Perm.swap _ _ _)
+
+/-- a fresh key replaces nothing -/
+theorem insR_none (k : κ) (v : α) : ∀ (m : List (κ × α)), k ∉ keys m → (insR k v m).2 = none := by
+  intro m
+  induction m with
+  | nil => intro _; rfl
+  | cons a t ih =>
+    intro hk
+    obtain ⟨k', v'⟩ := a
+    simp only [keys, List.map_cons, List.mem_cons, not_or] at hk
+    simp only [insR]
+    split
+    · rfl
+    · rename_i heq
+      exact absurd (LawfulEqOrd.eq_of_compare heq) hk.1
+    · exact ih hk.2
+
 theorem ofList_sorted_aux : ∀ (l m : List (κ × α)), Sorted m → Sorted (l.foldl (fun m kv => ins kv.1 kv.2 m) m) := by
   intro l
   induction l with
